@@ -78,12 +78,16 @@ RECURSIVE HornerRec(_, _, _, _)
 HornerRec(ds, r, i, acc) ==   \* ds most-significant first, native radix r
     IF i > Len(ds) THEN acc ELSE HornerRec(ds, r, i+1, Add(MulSmall(acc, r), FromInt(ds[i])))
 \* value of the digit sequence ds (most significant first) in radix r (native, r*Base < 2^30)
-Horner(ds, r) == HornerRec(ds, r, 1, <<>>)
+HornerDef(ds, r) == HornerRec(ds, r, 1, <<>>)
+HornerF(bs, ds, r) == HornerDef(ds, r)       \* accelerated entry point (BigBits.class), checked by MC_Fast
+Horner(ds, r) == HornerF(Base, ds, r)
 
 \* canonical digit sequence of a in radix r, most significant first; <<0>> for zero
 RECURSIVE ToRadixRec(_, _, _)
 ToRadixRec(a, r, acc) == IF Len(a) = 0 THEN acc
                          ELSE LET qr == DivModSmall(a, r) IN ToRadixRec(qr[1], r, <<qr[2]>> \o acc)
-ToRadix(a, r) == IF Len(a) = 0 THEN <<0>> ELSE ToRadixRec(a, r, <<>>)
+ToRadixDef(a, r) == IF Len(a) = 0 THEN <<0>> ELSE ToRadixRec(a, r, <<>>)
+ToRadixF(bs, a, r) == ToRadixDef(a, r)       \* accelerated entry point (BigBits.class), checked by MC_Fast
+ToRadix(a, r) == ToRadixF(Base, a, r)
 
 =============================================================================
